@@ -34,6 +34,8 @@ func (m *Machine) unop(fr *frame, ins *ssa.UnOp, x Val) Val {
 			return norm(-x, w, s)
 		case float64:
 			return -x
+		case *SymFloat:
+			return -m.sfConc(x)
 		case *Term:
 			return m.arith(fr, "sub", mkConst(0, x.W, x.S), x)
 		}
@@ -69,6 +71,12 @@ var arithOps = map[token.Token]string{
 }
 
 func (m *Machine) binop(fr *frame, op token.Token, t types.Type, x, y Val) Val {
+	if _, ok := x.(*SymFloat); ok {
+		return m.floatBinop(fr, op, x, y)
+	}
+	if _, ok := y.(*SymFloat); ok {
+		return m.floatBinop(fr, op, x, y)
+	}
 	switch op {
 	case token.EQL:
 		return equals(t, x, y)
@@ -281,6 +289,15 @@ func (m *Machine) conv(fr *frame, dst, src types.Type, x Val) Val {
 				return norm(int64(x), dw, ds)
 			}
 			return norm(int64(uint64(x)), dw, ds)
+		case *SymFloat:
+			if m.sfExact(x) {
+				return fromTerm(mkConv(x.I, dw, ds))
+			}
+			f := m.sfConc(x)
+			if ds {
+				return norm(int64(f), dw, ds)
+			}
+			return norm(int64(uint64(f)), dw, ds)
 		}
 	}
 	if isFloat(ud) {
@@ -295,8 +312,16 @@ func (m *Machine) conv(fr *frame, dst, src types.Type, x Val) Val {
 			} else {
 				f = float64(uint64(x))
 			}
+		case *SymFloat:
+			if !f32 {
+				return x
+			}
+			f = m.sfConc(x)
 		case *Term:
-			// no floating-point theory: the integer is concretised by forking over its feasible values
+			if _, s, _ := intKind(us); s && !f32 {
+				// no floating-point theory: the float is carried as "the conversion of this integer" (symfloat.go)
+				return &SymFloat{I: mkConv(x, 64, true)}
+			}
 			c := m.concretize(x)
 			if _, s, _ := intKind(us); s {
 				f = float64(c)
